@@ -19,6 +19,8 @@ struct Op {
     bytes data;                // create: random bytes; load: 32 bytes; decode*: phrase; crypt: password
     std::vector<u64> clock;    // create: readings the clock seam returns, in turn (last one repeats)
     u64 fail = 0;              // bit i set: the i-th allocation request made during this op fails
+    u64 reinj = 0;             // non-zero: during the first allocation request of this op the environment calls polyseed_inject
+                               // itself (lazy bootstrap): value = 1 + generation*8 + optional-entry bits
     std::string text() const;
     static bool parse(const std::string& line, Op& out);
 };
@@ -85,6 +87,7 @@ struct OpRec {
     bool guard_broken = false;
     std::vector<SeamEvent> ev;
     int nalloc = 0;
+    bool reinj_done = false;
     bool alloc_failed = false;
     std::vector<BufReg> bufs;
     u64 edges = 0;
@@ -115,7 +118,7 @@ struct Task {
     void* entry_sp;                 // stack address of the library entry frame (W2)
     std::function<void()>* seam_req;
     u32 last_guard;
-    void* slots[8];
+    void* slots[64];
 };
 
 struct Violation {
